@@ -136,10 +136,12 @@ ApplyCode(n, s) ==
     [] n = "CODE.NULL" -> IF Has(s, "code", 1)
                           THEN Fired(PushOn(s, "bool", c[1].k = "list" /\ c[1].v = <<>>))
                           ELSE Unfired(s)
-    \* depth-first index of the second item within the top item, -1 when absent; operands stay
-    [] n = "CODE.POSITION" -> IF Has(s, "code", 2)
+    \* a depth-first index at which the second item sits within the top item (which one, when it occurs more than
+    \* once, is left open), -1 exactly when absent; operands stay
+    [] n = "CODE.POSITION" -> IF ~Has(s, "code", 2) THEN Unfired(s)
+                              ELSE IF StructFuzzy(c[1]) \/ StructFuzzy(c[2]) \/ Len(AllPositions(c[1], c[2])) <= 1
                               THEN PushIntUnlessFuzzy(s, StructFuzzy(c[1]) \/ StructFuzzy(c[2]), Position(c[1], c[2]))
-                              ELSE Unfired(s)
+                              ELSE FiredH(PushOn(s, "int", Position(c[1], c[2])), <<HoleAB(<<"int", 1>>, "member", AllPositions(c[1], c[2]), 0)>>)
     \* the whole CODE stack printed top first onto the NAME stack
     [] n = "CODE.PRINT" -> IF ~Has(s, "code", 1) THEN Unfired(s)
                            ELSE IF \E i \in 1..Len(c) : Fuzzy(c[i])
